@@ -79,6 +79,21 @@ def shifted(desc, c):
 def check_vdot(case, rec):
     fam = case['fam']
     a = build_mps(shifted(fam['mps'][0], case.get('shift', 0))); b = build_mps(fam['mps'][1])
+    if case.get('single'):
+        # tensors stored in single precision (one or both operands): the contraction then runs in single precision and is judged at
+        # that accuracy; a dropped imaginary part or conjugation is O(1)
+        for psi in ((a, b) if case['single'] == 'both' else (a,)):
+            psi.A = [np.asarray(x, dtype=complex).astype(np.complex64) for x in psi.A]
+        va, vb = cvec(a.A), cvec(b.A)
+        mag = tmag(a.A) * tmag(b.A)
+        got = ptn.vdot(a, b); ref = np.vdot(va, vb)
+        require(abs(complex(got) - complex(ref)) <= 2e-4 * max(mag, 1e-300), 'vdot of single-precision tensors differs from conj(chi).psi',
+                got=complex(got), ref=complex(ref), magnitude=mag)
+        nb = float(np.linalg.norm(vb))
+        require(abs(float(ptn.norm(b)) - nb) <= 2e-4 * max(tmag(b.A), 1e-300), 'norm of a single-precision state differs from the dense norm')
+        rec.label('storage_complex64_' + case['single'], 'L=%d' % len(a.A))
+        rec.nontrivial = bool(abs(ref) > 1e-3 * mag)
+        return
     if case.get('shift', 0):
         rec.label('different_leading_charges')
     va, vb = cvec(a.A), cvec(b.A)
@@ -140,7 +155,7 @@ def gen_scalars(draw, tier):
 @st.composite
 def gen_vdot(draw, tier):
     return {'fam': draw(sector_family(n_mps=2, n_mpo=0, Lmax=5 if tier == 'quick' else 6, dmax=4, Dmax=5, dense_cap=1024)),
-            'shift': draw(st.sampled_from([0, 0, 1, -3, 65536]))}
+            'shift': draw(st.sampled_from([0, 0, 1, -3, 65536])), 'single': draw(st.sampled_from([None, None, None, None, 'one', 'both']))}
 
 
 # ---- local operators --------------------------------------------------------------------
